@@ -229,7 +229,10 @@ pub fn gen_family(trees: &[usize]) -> Vec<GenCfg> {
                 for nstate in [1usize, 2, 3, 5, 7] {
                     for wset in 0..4usize {
                         for gv in [false, true] {
-                            v.push(GenCfg { ns, stage, log_gain: (nstate + wset) % 2 == 1, nstate, wset, gv, tree, order: if stage == 0 { 4 } else { 5 }, ..GenCfg::default() });
+                            v.push(GenCfg { ns, stage, log_gain: (nstate + wset) % 2 == 1, nstate, wset, gv, tree, // vector lengths vary over the family: cepstral orders 3..5, LSP orders 3..5 (odd and even)
+                            order: if stage == 0 { 3 + (nstate + wset) % 3 } else { 4 + (nstate + wset + gv as usize) % 3 },
+                            lpf_taps: [3, 1, 5][(nstate + stage) % 3],
+                            ..GenCfg::default() });
                         }
                     }
                 }
@@ -397,4 +400,37 @@ pub fn run(tier: Tier) -> i32 {
     rep.guard(st.out_range.load(Ordering::Relaxed) > 0, "no case outside the stable range");
     rep.guard(st.in_range.load(Ordering::Relaxed) > 0, "no case inside the stable range");
     rep.finish()
+}
+
+/// Re-run one recorded case (voice descriptor, condition, labels) without the enumerator.
+pub fn replay(v: &Value) -> i32 {
+    let name = v["voice"].as_str().unwrap_or("");
+    let vc = if name == "V0" {
+        v0_case(0)
+    } else if name.starts_with('P') {
+        v0_case(name[1..2].parse().unwrap_or(1))
+    } else {
+        match GenCfg::parse(name).and_then(|c| voice_case(&c).ok()) {
+            Some(vc) => vc,
+            None => {
+                println!("cannot rebuild voice {}", name);
+                return 2;
+            }
+        }
+    };
+    let acts: Vec<Act> = v["condition"].as_array().cloned().unwrap_or_default().iter().filter_map(|a| a.as_str().and_then(Act::parse_debug)).collect();
+    let lines: Vec<String> = v["labels"].as_array().cloned().unwrap_or_default().iter().filter_map(|x| x.as_str().map(|s| s.to_string())).collect();
+    let rep = Report::new("C01", Tier::Quick, "model_checking");
+    let st = Stats { in_range: Default::default(), out_range: Default::default(), short_mean: Default::default(), nonfinite_ok: Default::default() };
+    check_one(&rep, &vc, &acts, &Utt::Strs(lines.clone()), &st);
+    let n = rep.violation_count();
+    println!("voice {} condition {:?} labels {}: {}", name, acts, lines.len(), if n == 0 { "holds".to_string() } else { format!("{} violation(s)", n) });
+    if n == 0 {
+        0
+    } else {
+        // print them through the normal channel (replay files go under JBV_OUT or /verif/replays/C01)
+        std::env::set_var("JBV_OUT", format!("{}/work/replay-out", VERIF));
+        rep.finish();
+        1
+    }
 }
